@@ -28,6 +28,7 @@ pub fn check_openings(cx: &mut Cx, frame: &str, v: &Value, secrets: &[Secret], p
     // multiple of 2^64 satisfies response = challenge * witness(candidate) (mod 2^64) for the
     // committed value and for no other candidate
     check_range_blinders(cx, "C17", frame, v, secrets);
+    check_range_dictionary(cx, frame, v, secrets, decoy);
     let objs = commitment_objects(v);
     // dictionary attack without any randomness: an integer of the frame that is a multiple (over
     // the integers) of g^m mod N for the committed m and not for the decoy identifies m
@@ -295,6 +296,43 @@ pub fn check_range_blinders(cx: &mut Cx, prop: &str, frame: &str, v: &Value, sec
                     else if blinder > 0 && blinder.find_one(0).unwrap_or(0) >= 64 {
                         cx.violation(prop, format!("{frame}/{}/blinder-structured/range-witness/{}", generic_path(&rp), x.kind), format!("the blinding term of {rp} is a multiple of 2^{}: {rp} mod 2^64 = (challenge * witness) mod 2^64, the low bits of the witness of the range proof about the sender's {} are not masked", blinder.find_one(0).unwrap_or(0), x.kind));
                     }
+                }
+            }
+        }
+    }
+}
+
+/// C17 through the range proofs, third part: a DICTIONARY attack by nearest root.  The recipient
+/// holds two candidates for a committed value (the real one and a decoy), derives the root each
+/// would give, and compares both with floor(proof_ss.d / proof_ss.challenge).  If the blinding
+/// term is large enough the noise of that quotient (blinder / challenge) exceeds the distance of
+/// the two roots and says nothing; if the noise is 2^16 times smaller than the distance, the
+/// nearer candidate is the committed one
+pub fn check_range_dictionary(cx: &mut Cx, frame: &str, v: &Value, secrets: &[Secret], decoy: &Integer) {
+    let ls = leaves(v);
+    let one = Integer::from(1);
+    let get = |p: &str| ls.iter().find(|(q, _)| q == p).map(|(_, x)| x.clone());
+    for (p, _) in &ls {
+        let Some(root) = p.strip_suffix(".E_prime") else { continue };
+        for x in secrets.iter().filter(|x| x.value.significant_bits() > 128 && (x.kind == "hidden-attribute" || x.kind == "signature-e")) {
+            // the interval this kind of secret is range-proved in, and a decoy inside it
+            let (a, b, other) = if x.kind == "signature-e" {
+                let a = Integer::from(&one << 257u32) + 1u32;
+                let other = Integer::from(&a + Integer::from(decoy.keep_bits_ref(256)));
+                (a, Integer::from(&one << 258u32) - 1u32, other)
+            } else { (Integer::from(0), Integer::from(&one << 256u32) - 1u32, decoy.clone()) };
+            let (Some(wt), Some(wd)) = (range_witnesses(&x.value, &a, &b), range_witnesses(&other, &a, &b)) else { continue };
+            for (side, k) in [("a", 0usize), ("b", 2)] {
+                let (Some(d), Some(c)) = (get(&format!("{root}.proof_of_tolerance.proof_of_square_{side}.proof_ss.d")), get(&format!("{root}.proof_of_tolerance.proof_of_square_{side}.proof_ss.challenge"))) else { continue };
+                if c <= 0 { continue; }
+                let q = Integer::from(&d / &c);
+                let noise = Integer::from(&q - &wt[k]).abs();
+                let gap = Integer::from(&wt[k] - &wd[k]).abs();
+                // (for a range proof about ANOTHER secret the "noise" is the distance of two unrelated
+                //  roots, as large as the gap: the test does not fire)
+                cx.count("n.nearest_root_tests");
+                if gap > 0 && Integer::from(&noise << 16u32) < gap {
+                    cx.violation("C17", format!("{frame}/{}/dictionary-by-nearest-root/{}", generic_path(&format!("{root}.proof_of_tolerance.proof_of_square_{side}.proof_ss.d")), x.kind), format!("floor(d / challenge) of {root}.proof_of_square_{side} is 2^{} away from the root the committed {} gives and 2^{} from the decoy's: the blinding term is too short for the challenge, two candidate values are told apart", noise.significant_bits(), x.kind, gap.significant_bits()));
                 }
             }
         }
